@@ -235,10 +235,21 @@ func c10Searches(tier string) []named {
 	// ... and with entries in BOTH network instances (a Get over all instances walks them one after the other)
 	both := Letter{Name: "s0 ops[ADD v4@V->1@D, ADD v6@V->1@D]", K: kOps, S: 0, Ops: []OpT{{entry("ADD v4@V->1@D"), stOwn}, {entry("ADD v6@V->1@D"), stOwn}}}
 	o3 := &Options{Letters: c10Letters(1, tier == "thorough"), Sessions: 1, Checks: Checks{Disconnect: true}, Init: append(append([]Letter{}, init...), both)}
+	// ... and with a superseded session still connected while the primary has an operation held
+	l2 := c10Letters(2, false)
+	per := 0
+	for i, l := range l2 {
+		if l.Name == "s1 open" {
+			per = i
+		}
+	}
+	init4 := []Letter{l2[0], l2[1], l2[2], l2[per], l2[per+1], l2[per+2], l2[per+5]} // s0: open, params, election 1; s1: open, params, election 2, op[ADD v4->1] (held)
+	o4 := &Options{Letters: ls2, Sessions: 2, Checks: Checks{Disconnect: true}, Init: init4}
 	return []named{
 		{fmt.Sprintf("faults/%d-sessions/from-empty", n), o, depth},
 		{"faults/2-sessions/from-chain-installed", o2, depth - 3},
 		{"faults/1-session/from-both-instances-populated", o3, depth - 3},
+		{"faults/2-sessions/from-superseded-session-and-held-operation", o4, 3},
 	}
 }
 
